@@ -11,6 +11,7 @@ Check(run) ==
             IF IssueOK(e, run.texts[e.ti]) THEN TRUE ELSE PrintT(<<"REJECT", run.id, k, Why(e, run.texts[e.ti])>>)
    /\ (IF FilterSubset(run.sig, run.sev, run.errsig) THEN TRUE ELSE PrintT(<<"REJECT", run.id, 0, "errors-only-not-subset">>))
    /\ (IF SortedStable(run.sortkeys, run.sortoi) THEN TRUE ELSE PrintT(<<"REJECT", run.id, 0, "sort-order">>))
+   /\ (IF SortedStableDesc(run.sortkeysrev, run.sortoirev) THEN TRUE ELSE PrintT(<<"REJECT", run.id, 0, "sort-order-reverse">>))
    /\ (IF run.codes = run.codesafter THEN TRUE ELSE PrintT(<<"REJECT", run.id, 0, "codes-changed-by-export">>))
 TNext == r < Len(Runs) /\ r' = r + 1 /\ Check(Runs[r + 1]) /\ UNCHANGED vars
 TSpec == TInit /\ [][TNext]_<<vars, r>>
